@@ -11,6 +11,7 @@
 #include <map>
 #include <memory>
 #include <sstream>
+#include <thread>
 
 namespace engine
 {
@@ -21,6 +22,7 @@ class Uci
         "rnbqkbnr/pppppppp/8/8/8/8/PPPPPPPP/RNBQKBNR w KQkq - 0 1";
 
     Uci();
+    ~Uci();
 
     void loop();
 
@@ -53,7 +55,10 @@ class Uci
 
     bool staticeval_command(std::istringstream& istream);
 
+    void wait_for_search();
+
     std::shared_ptr<Search> search;
+    std::thread search_thread;
     Position position;
     PositionScorer scorer;
     tt::TTable ttable;
